@@ -169,34 +169,9 @@ def total_agree(case, impl_out, model_out, profile):
         if m_norm == m_state:
             if i_reser == m_reser:
                 return True
-            # big-endian label order: the model orders names by their ENCODED bytes, the library by the decoded String;
-            # the two coincide on ASCII / half-width katakana / hiragana / katakana names (DESIGN 0a).  A mutated file may
-            # carry other names (e.g. 83 A0 = Greek capital beta sorts before hiragana as a String, after it as bytes):
-            # there only category and length of the re-serialized image are comparable (C05 asks for "no panic")
-            if case.line.split()[1] == "B" and not _be_order_domain(m_state):
-                return i_reser.split(":", 1)[0] == m_reser.split(":", 1)[0] and len(i_reser) == len(m_reser)
             return False
         return True
     return False
-
-
-def _be_order_domain(state):
-    """are all label names of the printed state inside the set on which byte order = String order?"""
-    m = re.search(r" l=\[([^\]]*)\]", state)
-    if not m:
-        return True
-    for tok in re.findall(r"B([0-9a-f]*)", m.group(1)):
-        b = bytes.fromhex(tok)
-        i = 0
-        while i < len(b):
-            c = b[i]
-            if c < 0x80 or 0xA1 <= c <= 0xDF:
-                i += 1
-            elif i + 1 < len(b) and ((c == 0x82 and 0x9F <= b[i + 1] <= 0xF1) or (c == 0x83 and 0x40 <= b[i + 1] <= 0x96 and b[i + 1] != 0x7F)):
-                i += 2
-            else:
-                return False
-    return True
 
 
 def total_oracle(case, impl_out, profile):
